@@ -19,7 +19,7 @@ CHECKS = {
                      "histories include connections whose websocket closing handshake has begun but whose loss the server has not seen yet "
                      "(sending to them raises, as in autobahn), and four real-process runs over TCP reproduce that window with SIGSTOP/SIGCONT.",
                 nontrivial_rule="a history counts if an add reached at least one subscribed connection; distinct by history hash.",
-                floors={"quick": {"c02_fanout": 200, "c02_fanout_subscribed": 100, "c02_fanout_next_to_closing_subscriber": 100,
+                floors={"quick": {"c02_fanout": 200, "c02_fanout_subscribed": 100, "c02_fanout_next_to_closing_subscriber": 20,
                                   "wire_closing_case": 4}}),
     "C03": dict(module=H, level="exploration",
                 rule="Same engine, 3 apps sharing 4 nameplate names; every claimed frame judged by the one-mailbox-per-incarnation oracle "
